@@ -101,6 +101,14 @@ def tasks(tier, seed, selftest=False):
             sk = tuple(a) + tuple(x) + tuple(b)
             for order in ("canonical", "reversed"):
                 S.append(dict(family="SKIP3", skeleton=sk, timebox=8 if q else 300, params={"A": list(a), "X": list(x), "B": list(b), "order": order}))
+    if not selftest:
+        # the network handed over as an OBJECT whose variables are declared in another order than the sorted one the text
+        # loaders produce (a network built through the AEON API): pickling goes through text and re-sorts them
+        for (a, x, b) in [(("succ",), ("pickle",), ("fullbfs",)), (("fullbfs",), ("pickle",), ("everyseeds",)), (("bfs",), ("pickle",), ("minp", "seeds")), ((), ("pickle",), ("fullbfs",))]:
+            sk = tuple(a) + tuple(x) + tuple(b)
+            for order in ("reversed", "rotated"):
+                S.append(dict(family="D3", skeleton=sk, timebox=8 if q else 300, tag="decl-" + order, params={"A": list(a), "X": list(x), "B": list(b), "decl_order": order}))
+                S.append(dict(family="U2", skeleton=sk, timebox=6 if q else 300, tag="decl-" + order, params={"A": list(a), "X": list(x), "B": list(b), "decl_order": order}))
     if q:
         for (a, x, b) in combos[::7]:
             sk = tuple(a) + tuple(x) + tuple(b)
